@@ -55,3 +55,6 @@ def build(reg):
         raises={'Exception': [('repr', 'self.upstream._num_buffer == len(%s)' % UB)]},
         loops={0: LoopSpec(unroll=1), 1: LoopSpec(unroll=2)}))
     return T
+
+
+CROSSCHECK = ['HttpParser.del_header', 'HttpParser.del_headers']
